@@ -21,7 +21,7 @@ N_BIG = [256, 1024, 4096, 16384, 65536]
 
 
 def gen_cases(chk, tag):
-    r = run_tlc("LimbLoops", "LimbLoops_gen.cfg", workers=1, name=tag + "-gen", timeout=900)
+    r = run_tlc("LimbLoops", "LimbLoops_gen.cfg" if chk.tier == "quick" else "LimbLoops_gen_thorough.cfg", workers=1, name=tag + "-gen", timeout=1800)
     tlc_must_pass(r, "LimbLoops gen")
     chk.add_tlc(r, "behaviour generation")
     cases = printed_json(r, "CASE")
@@ -105,7 +105,8 @@ def drive_b(rec, part, count):
 
 
 def model_check(chk, tag):
-    r = run_tlc("LimbLoops", "LimbLoops_quick.cfg", workers=16, coverage=True, name=tag + "-mc", timeout=1800)
+    quick = chk.tier == "quick"
+    r = run_tlc("LimbLoops", ("LimbLoops_quick.cfg" if quick else "LimbLoops_thorough.cfg"), workers=16, coverage=True, name=tag + "-mc", timeout=1800)
     tlc_must_pass(r, "LimbLoops exhaustive")
     chk.add_tlc(r, "exhaustive + liveness")
     never = [a for a, (t, g) in r.coverage.items() if t == 0 and a != "Done"]
